@@ -15,6 +15,7 @@ import (
 func init() {
 	register("C15_Redirector", C15_Redirector)
 	register("C15_OAuth2PassThrough", C15_OAuth2PassThrough)
+	register("C15_LoginFlows", C15_LoginFlows)
 }
 
 // dataRenderer records the data handed to the JSON "redirect" page.
@@ -104,4 +105,44 @@ func C15_OAuth2PassThrough() {
 	verif.Witness(verif.And(loc != "/", !offsite(loc)), "a-local-target-is-followed")
 	// the recording redirector hands RedirectPath to http.Redirect unchanged when it is absolute
 	verif.Assert(!offsite(loc), "the OAuth2 round trip never sends the client off-site")
+}
+
+// C15_LoginFlows: "on every flow that follows the parameter (password, OTP, TOTP, SMS ...)": the
+// login-type routes served through the shipped defaults.Redirector (form and JSON mode) with an
+// arbitrary client-supplied redir form value and arbitrary credentials, from an arbitrary
+// invariant state: whatever the route answers, a redirect it emits never points off-site.
+func C15_LoginFlows() {
+	verif.ReplayInInterpreter()
+	rd := &dataRenderer{}
+	o := noGuards()
+	o.recoverLogin = true
+	f := newFlowWith(o, func(w *world.World) {
+		w.AB.Config.Core.Redirector = defaults.NewRedirector(rd, authboss.FormValueRedirect)
+	})
+	routes := []string{"POST /login", "POST /otp/login", "POST /2fa/totp/validate", "POST /2fa/sms/validate", "POST /recover/end", "POST /recover", "POST /register"}
+	route := routes[verif.Choice("route", len(routes))]
+	api := verif.Choice("mode", 2) == 1
+	// the guard itself is explored to 5 / 7 bytes by C15_Redirector; here every target of up to
+	// 3 (thorough 5) bytes, which includes "//a", "/\\a", "a:b" and their control-character spellings
+	redir := verif.Chars("redir", verif.Choice("len", verif.Bound(3, 5)+1))
+	v := symbolicValues()
+	f.vals = v
+	r := world.Request("POST", route[len("POST "):], "")
+	r.Form[authboss.FormValueRedirect] = []string{redir}
+	if api {
+		r.Header.Set("Content-Type", "application/json")
+	}
+	f.w.Body.Next = v
+	var rec *world.Recorder
+	panicked, _ := world.Try(func() { rec = f.w.Serve(f.w.Route(route), r) })
+	if panicked {
+		return
+	}
+	loc := rec.Hdr.Get("Location")
+	if api {
+		loc, _ = rd.last["location"].(string)
+	}
+	verif.Witness(verif.And(verif.And(loc != "", loc == redir), !offsite(loc)), "a-local-target-is-followed")
+	verif.Witness(verif.And(loc != "", loc != redir), "a-configured-target-is-used")
+	verif.Assert(!offsite(loc), "no login-type flow ever sends the client off-site")
 }
